@@ -587,7 +587,8 @@ func (g *Gen) Step() {
 		case 0:
 			t = w.E.Epoch.Add(-time.Hour)
 		case 1:
-			t = w.now().Add(time.Hour)
+			// "purge the backlog": a time in the future, near or far
+			t = w.now().Add([]time.Duration{time.Hour, 400 * 24 * time.Hour}[r.Intn(2)])
 		case 2:
 			t = w.now().Add(3 * time.Millisecond)
 		default:
